@@ -27,9 +27,12 @@ import (
 // `BT /F Tf … ET`-framed with a name its own scope binds, forms are drawn through names the
 // drawing scope lists. For those the property states the result: every string decodes by the
 // font dictionary its Tf selects (oracle C07/ext-show-by-selected-font, written from the
-// authored maps and the reference tables). Quirky documents add what real files contain and
-// the property does not speak about: missing/odd /Subtype, /Encoding of the wrong type or as
-// a dictionary (BaseEncoding, Differences), ToUnicode that is no stream or does not decode,
+// authored maps and the reference tables; documents with a font whose text comes from the
+// /Differences of its /Encoding dictionary under C07/ext-differences-font). Quirky documents
+// add what real files contain and the property does not speak about: missing/odd /Subtype,
+// /Encoding of the wrong type, /Differences that are no array or hold odd entries (names
+// before any code, codes outside a byte, reals, references), ToUnicode that is no stream or
+// does not decode,
 // bad /Widths, Type0 without descendants, Tf of unbound names or without a size, shows
 // without a Tf (font inherited from the caller), q/Q, stray Q, TJ arrays, ' and ", forms
 // without /Resources, forms drawing themselves, unknown XObject names, image XObjects.
@@ -42,14 +45,16 @@ type xObj struct {
 }
 
 type xDoc struct {
-	objs    map[int]*xObj
-	pageRes string // dictionary text; "" = the page has no resources
-	content []byte
-	datas   [][]byte // every shown string
-	progs   [][]byte // every ToUnicode program
-	clean   bool
-	key     string // oracle key of a clean document ("" = C07/ext-show-by-selected-font)
-	want    []string // clean documents: the specified fragment texts in show order
+	objs      map[int]*xObj
+	pageRes   string // dictionary text; "" = the page has no resources
+	content   []byte
+	datas     [][]byte // every shown string
+	progs     [][]byte // every ToUnicode program
+	diffTexts []string // every /Differences array text (for the NFC candidates)
+	clean     bool
+	key       string   // oracle key of a clean document ("" = C07/ext-show-by-selected-font)
+	want      []string // clean documents: the specified fragment texts in show order
+	hasDiffs  bool     // some font's text comes from /Differences
 }
 
 func (d *xDoc) add(o *xObj) int {
@@ -149,8 +154,20 @@ func (d *xDoc) nfcCandidates() string {
 		}
 	}
 	encs := []string{"WinAnsiEncoding", "MacRomanEncoding", "PDFDocEncoding", "StandardEncoding", "SymbolEncoding", "ZapfDingbatsEncoding"}
+	// the /Differences of the document, read as 9.6.6.1 says, over every base encoding
+	var customs []font.Encoding
+	for _, t := range d.diffTexts {
+		if runs, ok := parseDiffText(t); ok {
+			for _, e := range encs {
+				customs = append(customs, font.NewCustomEncodingFromGlyphs(font.GetEncoding(e), diffNames(runs)))
+			}
+		}
+	}
 	for _, data := range d.datas {
 		hx.Safe(func() {
+			for _, ce := range customs {
+				add(ce.DecodeString(data))
+			}
 			for _, cm := range cms {
 				add(cm.LookupString(data))
 			}
@@ -251,7 +268,7 @@ func extCase(c *hx.Ctx, d *xDoc, ops bool) {
 				if fonts[n].ToUnicodeCMap != nil {
 					tu = "T"
 				}
-				parts[i] = fmt.Sprintf("%s=%s:%s", hx.HexS(n), hx.HexS(fonts[n].Encoding), tu)
+				parts[i] = fmt.Sprintf("%s=%s:%s:%s", hx.HexS(n), hx.HexS(fonts[n].Encoding), tu, diffsField(getDifferences(fonts[n])))
 			}
 			line = strings.Join(parts, ",")
 			if len(parts) == 0 {
@@ -407,7 +424,13 @@ func genExtDoc(r *hx.Rng) *xDoc {
 		// /Encoding
 		encQuirk := ""
 		if quirky && r.Chance(1, 3) {
-			encQuirk = hx.Pick(r, []string{"none", "int", "dict-base", "dict-nobase", "dict-baseint", "dict-diffs", "dict-baddiffs", "indirect", "custom", "string"})
+			encQuirk = hx.Pick(r, []string{"none", "int", "dict-base", "dict-nobase", "dict-baseint", "dict-diffs", "dict-baddiffs", "dict-odddiffs", "dict-odddiffs", "indirect", "custom", "string"})
+		}
+		// the /Differences of an /Encoding dictionary decide (clean and quirky documents)
+		if g.Subtype != "Type0" && g.m == nil && encQuirk == "" && r.Chance(1, 2) {
+			g.withDifferences(r)
+			encQuirk = "differences"
+			d.hasDiffs = true
 		}
 		// a Type0 font whose /Encoding is the name of a simple-font encoding and whose ToUnicode
 		// is unusable: NewType0Font keeps the name in Type0Font.Encoding, not in Font.Encoding
@@ -438,10 +461,44 @@ func genExtDoc(r *hx.Rng) *xDoc {
 				sb.WriteString(" /Encoding << /Type /Encoding >>")
 			case "dict-baseint":
 				sb.WriteString(" /Encoding << /BaseEncoding 3 >>")
+			case "differences":
+				var eb strings.Builder
+				eb.WriteString("<< /Type /Encoding")
+				if !g.NoBase {
+					eb.WriteString(" /BaseEncoding /" + g.Enc)
+				}
+				if r.Chance(1, 5) { // the array as an indirect object
+					fmt.Fprintf(&eb, " /Differences %d 0 R >>", d.add(&xObj{body: g.Diffs}))
+				} else {
+					eb.WriteString(" /Differences " + g.Diffs + " >>")
+				}
+				if r.Chance(1, 5) { // the dictionary as an indirect object
+					fmt.Fprintf(&sb, " /Encoding %d 0 R", d.add(&xObj{body: eb.String()}))
+				} else {
+					sb.WriteString(" /Encoding " + eb.String())
+				}
+				d.diffTexts = append(d.diffTexts, g.Diffs)
 			case "dict-diffs":
 				sb.WriteString(" /Encoding << /BaseEncoding /" + g.Enc + " /Differences [65 /B /C 200 /eacute] >>")
+				d.diffTexts = append(d.diffTexts, "[65 /B /C 200 /eacute]")
 			case "dict-baddiffs":
 				sb.WriteString(" /Encoding << /BaseEncoding /" + g.Enc + " /Differences [65 (B)] >>")
+			case "dict-odddiffs":
+				// arrays the property does not speak about: names before any code, codes outside a
+				// byte, a run crossing 255, something that is neither integer nor name after valid
+				// entries, references, no array at all
+				t := hx.Pick(r, []string{"[/Euro /eacute 66 /bullet]", "[-1 /Euro /eacute /bullet]", "[254 /Euro /eacute /bullet /dagger]",
+					"[300 /Euro 65 /eacute]", "[65 /Euro 66.0 /eacute]", "[65 /Euro [66 /eacute]]", "[65 /Euro null]", "[65 /Euro 7 0 R]",
+					"[65 /Euro 65 /g17 66 /eacute 66 /Eacute]", "[]", "[65]", "[9223372036854775807 /Euro /eacute]", "[65 /Eur#6F /#65acute]",
+					"999 0 R", "null", "(x)", "<< >>", "[65 / /Euro]"})
+				if t == "999 0 R" && r.Bool() {
+					t = fmt.Sprintf("%d 0 R", d.add(&xObj{body: hx.Pick(r, []string{"[65 /Euro /eacute]", "[65 (B)]", "7"})}))
+					d.diffTexts = append(d.diffTexts, "[65 /Euro /eacute]")
+				}
+				sb.WriteString(" /Encoding << /BaseEncoding /" + g.Enc + " /Differences " + t + " >>")
+				if runs, ok := parseDiffText(t); ok && len(runs) > 0 {
+					d.diffTexts = append(d.diffTexts, t)
+				}
 			case "indirect":
 				n := d.add(&xObj{body: "/" + g.Enc})
 				fmt.Fprintf(&sb, " /Encoding %d 0 R", n)
@@ -758,10 +815,12 @@ func genExtDoc(r *hx.Rng) *xDoc {
 			return w
 		}
 		d.want = walk(0, 0)
+		if d.hasDiffs {
+			d.key = "C07/ext-differences-font"
+		}
 	}
 	return d
 }
-
 
 // genInheritDoc: the page selects a font and draws a form that shows a string WITHOUT a Tf of
 // its own. The text state is part of the graphics state a form inherits (ISO 32000-1 8.10.1,
@@ -820,6 +879,9 @@ func runExtract(c *hx.Ctx) {
 			c.Count("ext-clean")
 		} else {
 			c.Count("ext-quirky")
+		}
+		if d.hasDiffs {
+			c.Count("ext-with-differences-font")
 		}
 		if len(d.objs) > 0 && bytes.Contains(d.content, []byte(" Do")) {
 			c.Count("ext-with-forms")
